@@ -296,6 +296,8 @@ def n_class(n):
 
 
 def main(ctx):
+    # every lattice part once more under FP traps + warnings-as-errors (clean on the unchanged tree, see DESIGN section 0)
+    ctx.envstrict_all = True
     from esutil import integrate
     from esutil.integrate import QGauss, QGauss2, gauleg, qgauss
 
